@@ -7,6 +7,7 @@ for i in range(1,len(blocks)-1,2):
     tid,text=blocks[i],blocks[i+1]
     m=re.match(r"Checking harness (\S+?)\.\.\.",text)
     if m: cur[tid]=m.group(1).split("::")[-1]; continue
+    if text.strip().startswith('- Stub') or not cur.get(tid): continue
     st="OK" if "SUCCESSFUL" in text else ("TIMEOUT" if "timed out" in text else "FAIL")
     t=re.search(r"Verification Time: ([0-9.]+)",text)
     c=re.search(r"(\d+) of (\d+) cover",text)
